@@ -106,6 +106,10 @@ DIRECTED = [
     # two groups, one sparse_super2 backup in the short last group, a large reserved GDT: the tail-group trimming has to count it
     (["-t", "ext4", "-b", "1024", "-i", "16384", "-O", "sparse_super2"], ["resize=4294967295", "num_backup_sb=1"], 8320),
     (["-t", "ext4", "-b", "1024", "-i", "16384", "-O", "sparse_super2,^flex_bg"], ["resize=4294967295", "num_backup_sb=1"], 8400),
+    # lazy inode-table initialisation over a device that holds an older filesystem of the same geometry
+    (["-t", "ext4", "-b", "1024", "-O", "^has_journal,^orphan_file,uninit_bg,^metadata_csum"], ["lazy_itable_init=1", "nodiscard"], 16384, "prev"),
+    (["-t", "ext4", "-b", "4096"], ["lazy_itable_init=1", "nodiscard"], 65536, "prev"),
+    (["-t", "ext3", "-b", "1024", "-O", "uninit_bg"], ["lazy_itable_init=1", "nodiscard", "lazy_journal_init=1"], 32768, "prev"),
     # the listed known finding (inode count rounded below the request): 1000 inodes over 4 groups of 4-inode blocks
     (["-t", "ext4", "-b", "1024", "-I", "256", "-N", "1000"], [], 32768),
     # dense inodes under flex_bg: packed inode tables that straddle a group boundary
@@ -121,11 +125,12 @@ DIRECTED = [
 
 def gen_config(r, idx=None):
     if idx is not None and idx < len(DIRECTED):
-        opts, ext, size_k = DIRECTED[idx]
+        opts, ext, size_k = DIRECTED[idx][:3]
         feats = []
         if "-O" in opts:
             feats = opts[opts.index("-O") + 1].split(",")
-        return {"opts": list(opts), "ext": list(ext), "size_k": size_k, "bs": int(opts[opts.index("-b") + 1]), "type": opts[1], "feats": feats}
+        return {"opts": list(opts), "ext": list(ext), "size_k": size_k, "bs": int(opts[opts.index("-b") + 1]), "type": opts[1], "feats": feats,
+                "prev": len(DIRECTED[idx]) > 3}
     fam = r.random()
     if fam < 0.07:
         # family: a short last group that has to hold (or not) a sparse_super2 backup, with a reserved GDT of any size
@@ -196,7 +201,11 @@ def gen_config(r, idx=None):
     ext = list(dict.fromkeys(ext))
     if r.random() < 0.2 and size_k > 4000:
         opts += ["-d", host_tree()]
-    return {"opts": opts, "ext": ext, "size_k": size_k, "bs": bs, "type": t, "feats": feats}
+    prev = False
+    if r.random() < 0.12 and not any(x.startswith(("offset=", "lazy_itable_init")) for x in ext):
+        ext += ["lazy_itable_init=1"] + ([] if "nodiscard" in ext else ["nodiscard"])
+        prev = True
+    return {"opts": opts, "ext": ext, "size_k": size_k, "bs": bs, "type": t, "feats": feats, "prev": prev}
 
 
 def invariants_of_geometry(fs):
@@ -297,6 +306,13 @@ def tool_case(src, lexe, idx, seed, tier):
             for _ in range(dev_bytes // 4096):
                 f.write(fill)
             f.write(fill[:dev_bytes % 4096])
+        if cfg.get("prev"):
+            # the device holds a filesystem of the same geometry from an earlier mke2fs (inode tables written, reserved
+            # inodes in use): a lazily initialised new filesystem must not pick any of it up
+            pe = [x for x in cfg["ext"] if not x.startswith(("lazy_itable_init", "nodiscard"))] + ["lazy_itable_init=0", "hash_seed=01234567-89ab-cdef-0123-456789abcdef"]
+            e2v.sh([T("misc/mke2fs"), "-q", "-F"] + cfg["opts"] + ["-U", "6b6b6b6b-1111-2222-3333-444444444444", "-E", ",".join(pe), img] +
+                   (["%dk" % cfg["size_k"]] if offset else []), env=env, timeout=600)
+            e2v.sh([T("debugfs/debugfs"), "-w", "-f", "-", img], input=b"mkdir old\nwrite /etc/hostname old/f\nmkdir old/d\n", env=env, timeout=120)
     cmd = [T("misc/mke2fs"), "-q", "-F"] + cfg["opts"] + (["-E", ",".join(cfg["ext"])] if cfg["ext"] else []) + \
           ["-U", "5a5a5a5a-1111-2222-3333-444444444444", "-E", "hash_seed=01234567-89ab-cdef-0123-456789abcdef"]
     # two -E options: mke2fs takes the last; merge instead
@@ -304,7 +320,7 @@ def tool_case(src, lexe, idx, seed, tier):
         cmd = [T("misc/mke2fs"), "-q", "-F"] + cfg["opts"] + ["-U", "5a5a5a5a-1111-2222-3333-444444444444",
                                                             "-E", ",".join(cfg["ext"] + ["hash_seed=01234567-89ab-cdef-0123-456789abcdef"])]
     size_arg = ["%dk" % cfg["size_k"]] if offset else []
-    recipe = {"cmd": " ".join(cmd[1:] + ["IMG"] + size_arg), "size_k": cfg["size_k"], "case_index": idx}
+    recipe = {"cmd": " ".join(cmd[1:] + ["IMG"] + size_arg), "size_k": cfg["size_k"], "case_index": idx, "device": "older filesystem of the same geometry" if cfg.get("prev") else "filled with 0x5A"}
     problems, stat = [], {}
     # ---- mke2fs -n: must not write
     fresh()
